@@ -243,6 +243,31 @@ func famLayout() {
 		emitFmt(strings.Repeat("(not ", d) + "x" + strings.Repeat(")", d))
 		emitFmt(strings.Repeat("(f [", d) + "1" + strings.Repeat("])", d) + " ; c")
 	}
+	// (a5) bytes that are not valid UTF-8 (Latin-1 text, truncated sequences, surrogate halves): the lexer reads each
+	// such byte as one replacement rune, so for tokens and comments it is just another rune (model character "U")
+	bad := []string{"\xe9", "\xff", "\xc3", "\xed\xa0\x80", "\xf0\x9f", "\x80"}
+	for i := 0; i < *fN/6+40; i++ {
+		b1, b2 := bad[r.Intn(len(bad))], bad[r.Intn(len(bad))]
+		switch i % 5 {
+		case 0:
+			emitFmt("(= s \"caf" + b1 + "\") ;; c" + b2 + " (x)\n(and y)")
+		case 1:
+			emitFmt("(and ;; " + b1 + b2 + " x\n  (= s \"" + b1 + "  b\") (f \"(" + b2 + "\"))")
+		case 2:
+			emitFmt("(f " + b1 + " \"a" + b2 + "\" ; t" + b1 + "\n \"  \")")
+		default:
+			n := 4 + r.Intn(12)
+			s := ""
+			for j := 0; j < n; j++ {
+				if r.Intn(4) == 0 {
+					s += bad[r.Intn(len(bad))]
+				} else {
+					s += concretise([]string{heavy[r.Intn(len(heavy))]})
+				}
+			}
+			emitFmt(s)
+		}
+	}
 	// (b) valid expressions with layout-sensitive string literals, re-laid-out
 	g := &gen{r: r, c: GenCfg{Custom: true, Alias: true, MaxKids: 4, Lists: true, Strings: true, Consts: true}}
 	for i := 0; i < *fN/4; i++ {
